@@ -89,6 +89,45 @@ def _judge(ctx, idx, cls, info, kind, data, model):
             ctx.disagree('decode', case, model, code_s)
 
 
+def _judge_reuse(ctx, cls, info, before, data):
+    """decode_message decodes INTO a message object: decoding `data` into an object that already holds the
+    result of decoding `before` must give the same as decoding into a fresh object (nothing left over)."""
+    from pyipmi.msgs.message import decode_message, encode_message
+    name = info['name']
+    case = {'class': name, 'kind': 'reused-object', 'before': lean.hexs(before), 'data': lean.hexs(data)}
+    fresh = cc.decode_real(cls, info['fields'], data)
+    try:
+        obj = cls()
+        decode_message(obj, bytes(before))
+    except Exception:  # noqa
+        return
+    try:
+        decode_message(obj, bytes(data))
+        used = ('ok', cc.get_values(obj, info['fields']), obj)
+    except Exception as e:  # noqa
+        used = (type(e).__name__,)
+    # judged by what the property states: same outcome kind as a fresh decode, and the re-encoding below
+    # (the attribute of an inactive Conditional may keep its earlier value: it is not part of the message)
+    if fresh[0] != used[0]:
+        ctx.violate('C02:strict-reused-object:%s' % name,
+                    'decoding into a %s object that was decoded into before ends differently from decoding into a '
+                    'fresh one' % name, case, expected=fresh[0], observed=used[0])
+        return
+    if used[0] == 'ok':
+        fields = info['fields']
+        has_cc = fields[0].prim[0] == 'cc' and fields[0].wrap == 'plain'
+        stopped = has_cc and used[1][0][0] == 'int' and used[1][0][1] != 0
+        if not stopped:
+            try:
+                again = bytes(bytearray(encode_message(obj)))
+            except Exception as e:  # noqa
+                again = type(e).__name__
+            if again != data:
+                ctx.violate('C02:strict-reused-object:%s' % name,
+                            're-encoding a %s object decoded twice does not reproduce the last input' % name, case,
+                            expected=lean.hexs(data), observed=again if isinstance(again, str) else lean.hexs(again))
+
+
 def run(ctx):
     snap = _snap if _snap is not None else registry.snapshot()
     drv = ctx.driver('drv_codec')
@@ -127,6 +166,13 @@ def run(ctx):
             ctx.case((info['name'], data), nontrivial=len(data) > 0)
             ctx.count('input:' + kind)
             _judge(ctx, idx, cls, info, kind, data, m)
+        # the same inputs decoded into an object that was decoded into before (longer message first)
+        vs = sorted(set(d for k, d in inputs if k == 'valid'), key=lambda d: (-len(d), d))
+        for i, before in enumerate(vs[:6]):
+            for data in (vs[i + 1:] + vs[:i])[:8]:
+                ctx.case((info['name'], 'reuse', before, data), nontrivial=len(data) > 0)
+                ctx.count('input:reused-object')
+                _judge_reuse(ctx, cls, info, before, data)
         if idx % 50 == 0:
             ctx.sample({'class': info['name'], 'data': lean.hexs(inputs[-1][1]), 'model': models[-1]})
         ctx.count('classes_with_fields')
@@ -152,6 +198,12 @@ def replay(ctx, v):
     idx, cls, info = by_name[case['class']]
     c2 = ctx.__class__('C02', 'quick', 0)
     data = lean.unhex(case['data'])
+    if case.get('kind') == 'reused-object':
+        print('class %s: decode %s, then decode %s into the same object' % (info['name'], case['before'], case['data']))
+        _judge_reuse(c2, cls, info, lean.unhex(case['before']), data)
+        for x in c2.violations:
+            print('  %s: expected %s, observed %s' % (x['what'], x['expected'], x['observed']))
+        return bool(c2.violations)
     real = cc.decode_real(cls, info['fields'], data)
     print('class %s data %s' % (info['name'], case['data']))
     print('  real decoder: %s' % (' '.join(cc.show(x) for x in real[1]) if real[0] == 'ok' else real[0]))
